@@ -24,7 +24,7 @@ ASSUMPTIONS = [
 
 def run(tier):
     q = tier == "quick"
-    specs = [("order2q", 500, 5), ("diamond1", 300, 3), ("store_order2", 500, 6)] if q else [("order2q", 240, 5), ("order2", 500, 6), ("order3", 500, 6), ("diamond", 400, 4), ("store_order2", 240, 6), ("store_order", 400, 6)]
+    specs = [("order2q", 500, 5), ("diamond1", 300, 3), ("store_order2", 500, 6), ("samesig", 300, 4)] if q else [("samesig", 200, 4), ("order2q", 240, 5), ("order2", 500, 6), ("order3", 500, 6), ("diamond", 400, 4), ("store_order2", 240, 6), ("store_order", 400, 6)]
     jobs = [Job("harness.c14", n, H.shards(n, pre), b, bounds=dict(harness=n), rule="one path = (traces, k, rewriter, row permutation/duplication, set iteration orders)",
                 describe=H.describe) for n, b, pre in specs]
     return run_check(PID, tier, jobs, H.FUNCTIONS, ASSUMPTIONS)
